@@ -1954,6 +1954,8 @@ class XNor(Any):
     """
 
     def __init__(self, *propositions, variable: typing.Union[puan.variable, str] = None):
+        # kept as given for to_json, the sub propositions below only hold their negations
+        self.xnor_propositions = sorted(map(lambda x: puan.variable(x) if type(x) == str else x, propositions))
         super().__init__(
             AtLeast(value=1, propositions=propositions).negate(), 
             AtMost(value=1, propositions=propositions).negate(), 
@@ -2011,10 +2013,10 @@ class XNor(Any):
             'type': self.__class__.__name__,
             'propositions': list(
                 map(
-                    maz.compose(operator.methodcaller("to_json")),
-                    self.propositions[0].negate().propositions
+                    operator.methodcaller("to_json"),
+                    self.xnor_propositions
                 )
-            ) if len(self.propositions) > 0 else [],
+            ),
         }
         if not self.generated_id:
             d['id'] = self.id
